@@ -111,6 +111,18 @@ CLAIMS = {
   note="Assumed (specs/extern): go-corelib ByteSplitWithEsc/ByteUnescape/NewScannerByDelim3 semantics (pieces are sub-slices of the input; unescaped() is ByteUnescape's documented function; every token the scanner yields ends with the delimiter). NOT decided: that the concatenation of tokens is the input (finding F6 of the design round: an unterminated trailing segment is dropped by the scanner), rune positions in messages, ISA-driven delimiters. That each element text node holds exactly the unescaped data is checked at the ByteUnescape call, not at the CreateNode call.",
   technique="contract-based deductive verification: caller-side assertions at every tokenizer call, byte-heap frame postcondition, SMT",
   design_ref="§6 C07"),
+ "C02": dict(
+  category="proof",
+  text="Narrow, partial. Proved: (1) Decl.deepCopy / CustomFuncDecl.deepCopy copy EVERY schema-visible scalar field (const, external, xpath, custom_parse, template, type, no_trim, keep_empty_or_null, custom_func name and ignore_error, presence of xpath_dynamic/custom_func, argument count) and write fresh objects only - template inlining and the declaration hash (the per-record result-cache key) are both computed from this copy; (2) every record is evaluated with an evaluation context created for that record (NewParseCtx is fresh with caching on; ingester.Read creates it per call and ParseNode requires a context whose cache is valid for the current heap), so no cached value of an earlier record can be served.",
+  note="NOT decided by this check: the evaluation semantics itself (ParseNode and the per-kind parse functions, normalisation and type conversion in value.go, xpath selection), array element order (finding F2 of the design round: validateArray sorts children by fqdn string, so an array of 10+ elements is emitted out of declaration order - confirmed, not yet expressed as an obligation because validateDecl's recursive frame is out of reach of the current contract language), the cache key's blindness to anchoring (F1), custom-function arity/type panics (F12, F13). Those stay design-round findings and paper arguments.",
+  technique="contract-based deductive verification: field-by-field postconditions with an explicit frame over recursive calls, ghost cache validity, SMT",
+  design_ref="§6 C02"),
+ "C03": dict(
+  category="proof",
+  text="Partial: panic-freedom only. For 121 functions under contract (all stream-reader, flat-file, fixed-length, csv, EDI, node-tree, navigator, date-time, javascript and transform.Read functions whose contracts are listed in evidence) every generated safety obligation is discharged for all inputs satisfying the function's precondition: no nil dereference, no index or slice bound violation, no failing type assertion, no reachable explicit panic, no division by zero (724 named obligations). Together with the callers' proved requires@ obligations this composes to: no panic can originate in these functions on any input reaching them through verified callers. Also included: the error-class postconditions whose violation makes the documented read loop spin (a fatal condition reported as a continuable error). F3 and F11 (panics escaping Read) were found by these obligations and are fixed.",
+  note="NOT decided: termination ('no hang') - loop and recursion variants are not proved (loops without variant are listed in evidence), so schema-validation recursion such as template cycles (seeded change C03_a2) is not caught; functions not under contract, notably the transform package's reflection calls (design-round findings F12, F13) and the csv delimiter hang F4a; 16 contracted functions with still-undischarged safety obligations are excluded and named in DESIGN.md 0.2. Preconditions that come from schema validation are assumed, not proved to be established by the validators.",
+  technique="contract-based deductive verification: automatically generated safety obligations (nil, bounds, assertion, panic) per SSA instruction, SMT",
+  design_ref="§6 C03"),
 }
 
 NOT_BUILT = "check not built yet in this session (planned, see DESIGN.md §6); not claimed until its obligations discharge on the unchanged tree"
